@@ -28,6 +28,32 @@ def rand_renaming(rng):
         preds={f'{i},0,{a}': [pp[i], sub] for i in range(4) for a in (1, 2, 3)})
 
 
+def flip_keys(kind, logic, job):
+    "A valid -> refuted flip: is the refuting run an unsaturated 'completed' branch (C02's finding)? Then use its call-site key."
+    import c09
+    j = {k: v for k, v in job.items() if k in ('logic', 'example', 'premises', 'conclusion', 'rename', 'extra')}
+    try:
+        import coqgen, c02
+        from vlib import coq_eval_cases
+        jj = dict(j, models=True, id=0)
+        r = probe_json('probe_gproofs.py', stdin=json.dumps(dict(jobs=[jj])))['results'][0]
+        i = coqgen.ident(logic)
+        obs = [ob for ob in (r.get('open_branches') or []) if not ob['limit_flag']]
+        exprs = [f'unsaturated FLA_{i} {ob["nodes"]} {ob["ticked"]}' for ob in obs]
+        hdr = c02.HEADER + 'Require Import GC10.Rules GC10.Logics.\n'
+        keys = set()
+        for ob, ans in zip(obs, coq_eval_cases('C10', hdr, exprs, shard=50, name='Attr')):
+            for k, c in re.findall(r'\((\d+), (\d+)\)', ans):
+                k, c = int(k), int(c)
+                over = ob.get('max_worlds') is not None and ob.get('n_worlds', 0) > ob['max_worlds']
+                keys.add(f'{kind}:' + c02.clause_key(logic, c, 'frame' if c in (4, 6) else ob['shapes'][k], over))
+        if keys:
+            return sorted(keys)
+    except Exception:
+        pass
+    return [f'{kind}:{logic}']
+
+
 def run(args) -> int:
     chk = Check('C10', args.tier, args.seed)
     ensure_theory()
@@ -66,6 +92,18 @@ def run(args) -> int:
             extra, _ = c01.rand_arg(rng, L['modal'], L['quantified']), None
             jobs.append(dict(base, role='monotone', group=gid, extra=(extra[0][0] if extra[0] else extra[1])))
             jobs.append(dict(base, role='rename', group=gid, rename=rand_renaming(rng)))
+        if L['quantified']:
+            Fb = ['P', 0, 0, [['c', 1, 0]]]; Fx = ['P', 0, 0, [['v', 0, 0]]]; Ga = ['P', 1, 0, [['c', 0, 0]]]
+            fixed = [([['U', 'Negation', Fb], ['Q', 'Existential', 0, Fx]], Ga),
+                     ([['Q', 'Universal', 0, ['P', 2, 0, [['v', 0, 0], ['c', 0, 0]]]]], ['P', 2, 0, [['c', 1, 0], ['c', 0, 0]]]),
+                     ([['Q', 'Existential', 0, ['P', 2, 0, [['v', 0, 0], ['c', 2, 0]]]], ['U', 'Negation', ['P', 2, 0, [['c', 0, 0], ['c', 2, 0]]]]],
+                      ['P', 0, 0, [['c', 1, 0]]])]
+            for prems, concl in fixed:
+                gid = len(jobs)
+                base = dict(logic=n, premises=prems, conclusion=concl, configs=CFG, timeout_ms=2500)
+                jobs.append(dict(base, role='base', group=gid))
+                for _ in range(3):
+                    jobs.append(dict(base, role='rename', group=gid, rename=rand_renaming(rng)))
         for e in rng.sample(examples, n_each):
             gid = len(jobs)
             base = dict(logic=n, example=e, configs=CFG, timeout_ms=2500)
@@ -86,7 +124,11 @@ def run(args) -> int:
         o = r['outcomes'][0]
         chk.count('role', job['role'])
         chk.count('outcome', o['cls'].split(':')[0])
-        groups.setdefault(job['group'], {})[job['role']] = dict(cls=o['cls'], argstr=r['argstr'], steps=o.get('steps'), job=job)
+        role = job['role']
+        g_ = groups.setdefault(job['group'], {})
+        while role in g_ and role != 'base':
+            role = role + "'"
+        g_[role] = dict(cls=o['cls'], argstr=r['argstr'], steps=o.get('steps'), job=job)
     for gid, gr in groups.items():
         base = gr.get('base')
         if not base:
@@ -95,6 +137,7 @@ def run(args) -> int:
         for role, x in gr.items():
             if role == 'base':
                 continue
+            role = role.rstrip("'")
             nontriv = base['cls'] in ('valid', 'invalid') and (base.get('steps') or 0) >= 3
             chk.case([n, role, base['argstr'], x['argstr']], nontrivial=nontriv,
                      sample=dict(logic=n, law=role, argument=base['argstr'], related=x['argstr'], verdicts=[base['cls'], x['cls']])
@@ -108,10 +151,13 @@ def run(args) -> int:
                     chk.violation(f'reflexive:{n}:not-closed-first', f"{n}: {x['argstr']} needed {x.get('steps')} steps (closure is not applied first)", rep)
             elif role == 'monotone':
                 if base['cls'] == 'valid' and x['cls'] == 'invalid':
-                    chk.violation(f'monotone:{n}', f"{n}: {base['argstr']} is valid but {x['argstr']} (one more premise) is refuted by a limit-free open branch", rep)
+                    for key in flip_keys('monotone', n, x['job']):
+                        chk.violation(key, f"{n}: {base['argstr']} is valid but {x['argstr']} (one more premise) is refuted by a limit-free open branch", rep)
             elif role == 'rename':
                 if {base['cls'], x['cls']} == {'valid', 'invalid'}:
-                    chk.violation(f'rename:{n}', f"{n}: {base['argstr']} is {base['cls']} but its renaming {x['argstr']} is {x['cls']}", rep)
+                    bad = x['job'] if x['cls'] == 'invalid' else base['job']
+                    for key in flip_keys('rename', n, bad):
+                        chk.violation(key, f"{n}: {base['argstr']} is {base['cls']} but its renaming {x['argstr']} is {x['cls']}", rep)
     chk.assumptions = props_assumptions('C10')
     chk.theorems = ['C10_reflexive', 'C10_monotone', 'C10_rename']
     chk.rule = ('metamorphic pairs on the real prover: conclusion copied from a premise; one random premise added; random injective renaming '
